@@ -1,5 +1,6 @@
 (* C14 — SetPower input domain and unit conversion. *)
-Require Import Model.Base Model.Validate Model.Current proofs.ValidateProofs.
+From stdpp Require Import gmap.
+Require Import Model.Base Model.Validate Model.Current Model.State Model.Staking Model.Slashing Model.Poa proofs.ValidateProofs proofs.L1Basic proofs.L1Effects.
 
 (* for every 64-bit unsigned power: accepted by Validate iff 1_000_000 <= p <= 2^63-1 *)
 Theorem C14_domain : forall p, 0 <= p < two64 ->
@@ -16,6 +17,32 @@ Proof. exact setpower_validate_above. Qed.
 Theorem C14_accepted_is_positive_int64 : forall p,
   cur_setpower_validate true p = Ok tt -> cast_i64 p = p /\ 1 <= tokens_to_power p.
 Proof. intros p H. apply accepted_cast. apply setpower_validate_domain. exact H. Qed.
+
+(* at the handler: out-of-domain powers never reach the state *)
+Theorem C14_handler_rejects_small : forall c val power unsafe,
+  0 <= val -> power < min_power -> msg_set_power c admin_id val power unsafe = MErr EPoaPowerBelowMinimum.
+Proof. exact set_power_rejects_small. Qed.
+
+Theorem C14_handler_rejects_huge : forall c val power unsafe,
+  0 <= val -> max_int64 < power -> msg_set_power c admin_id val power unsafe = MErr ESdkInvalidRequest.
+Proof. exact set_power_rejects_huge. Qed.
+
+(* exact units: tokens = requested amount, shares and self-delegation = amount (as a decimal), voting power = amount / 10^6 *)
+Theorem C14_exact_units : forall c val n c',
+  0 < n -> set_poa_power c val n = MOk c' ->
+  exists v', vals (stk c') !! val = Some v' /\ v_tokens v' = n /\ v_shares v' = n * dec_one /\
+             dels (stk c') !! val = Some (n * dec_one) /\ v_power v' = n / power_reduction.
+Proof.
+  intros c val n c' Hn H. destruct (set_poa_power_assign _ _ _ _ Hn H) as (v & _ & _ & Hv & Hd & _).
+  eexists. rewrite Hv, Hd, !lookup_insert. repeat split; reflexivity.
+Qed.
+
+(* a request that would not change the validator's power is refused before anything is written *)
+Theorem C14_same_power_rejected : forall c val shares v,
+  vals (stk c) !! val = Some v ->
+  tokens_to_power shares = default 0 (last_pow (stk c) !! val) ->
+  set_poa_power c val shares = MErr EUndefined.
+Proof. exact set_poa_power_same. Qed.
 
 Example C14_boundaries :
   cur_setpower_validate true 0 = Err EPoaPowerBelowMinimum /\
